@@ -105,6 +105,14 @@ fn replay(ctx: &Ctx, path: &str) -> i32 {
 				},
 			}
 		}
+	} else if doc["kind"] == "fuzz-input" {
+		match fuzz::replay_input(&doc) {
+			Some(r) => r,
+			None => {
+				eprintln!("replay: cannot re-run the fuzz input (target not built?)");
+				return 2;
+			},
+		}
 	} else {
 		match replay_direct(ctx, &doc) {
 			Some(r) => r,
@@ -176,7 +184,11 @@ fn main() {
 		};
 		let ctx = Ctx::new(property, tier);
 		match std::panic::catch_unwind(std::panic::AssertUnwindSafe(|| run_property(&ctx))) {
-			Ok(Some((level, report))) => finish(&ctx, level, report),
+			Ok(Some((level, mut report))) => {
+				// thorough tier: fixed-size libFuzzer campaigns (ASan, debug assertions) over the same check functions
+				fuzz::run_for_property(&ctx, &mut report, 2_000_000);
+				finish(&ctx, level, report)
+			},
 			Ok(None) => {
 				eprintln!("unknown property {property}");
 				2
